@@ -35,22 +35,27 @@ pub struct GraphCase {
     pub fail_at: Option<usize>,
     /// 0 failing command, 1 missing include, 2 unused tag, 3 temp target in a missing directory,
     /// 4 include of a non-UTF-8 file, 5 output path is a directory, 6 tampered output (verify, after a
-    /// correct build), 7 output deleted (verify)
+    /// correct build), 7 output deleted (verify), 8 a line of the source itself is not valid UTF-8
     pub fail_kind: u8,
     /// AfterCat edges emit only the `after` line (no command reading the dependency)
     pub after_only: bool,
+    /// f0 removes the (empty) directory `gone/` with a command: its queued scan may then fail.
+    /// Only termination is judged (whether the scan fails depends on the schedule).
+    pub vanish: bool,
+    /// marker commands take this long (natural flavour: a coordinator that stops waiting too early)
+    pub slow_ms: u32,
 }
 
 impl GraphCase {
     pub fn new(n: usize, mask: u64) -> Self {
-        Self { n, mask, kinds: 0, requested: (0..n).collect(), input_style: 0, threads: 2, stale: true, dup_edges: false, markers: true, obs: false, mode: Mode::Build, subdirs: false, fail_at: None, fail_kind: 0, after_only: false }
+        Self { n, mask, kinds: 0, requested: (0..n).collect(), input_style: 0, threads: 2, stale: true, dup_edges: false, markers: true, obs: false, mode: Mode::Build, subdirs: false, fail_at: None, fail_kind: 0, after_only: false, vanish: false, slow_ms: 0 }
     }
     pub fn graph(&self) -> Graph {
         Graph::from_mask(self.n, self.mask, self.kinds)
     }
     pub fn to_json(&self, spec: &Spec) -> Value {
         json!({"kind": "graph", "n": self.n, "mask": self.mask, "kinds": self.kinds, "requested": self.requested, "input_style": self.input_style, "threads": self.threads,
-            "stale": self.stale, "dup_edges": self.dup_edges, "markers": self.markers, "obs": self.obs, "mode": mode_name(&self.mode), "subdirs": self.subdirs, "fail_at": self.fail_at, "fail_kind": self.fail_kind, "after_only": self.after_only,
+            "stale": self.stale, "dup_edges": self.dup_edges, "markers": self.markers, "obs": self.obs, "mode": mode_name(&self.mode), "subdirs": self.subdirs, "fail_at": self.fail_at, "fail_kind": self.fail_kind, "after_only": self.after_only, "vanish": self.vanish, "slow_ms": self.slow_ms,
             "edges": self.graph().edges.iter().enumerate().map(|(i, e)| format!("f{i} -> {:?}", e.iter().map(|(j, k)| format!("f{j}{}", if *k == EdgeKind::AfterCat { "(after+cat)" } else { "" })).collect::<Vec<_>>())).collect::<Vec<_>>(),
             "schedule": spec_json(spec)})
     }
@@ -72,12 +77,14 @@ impl GraphCase {
                 fail_at: v["fail_at"].as_u64().map(|x| x as usize),
                 fail_kind: v["fail_kind"].as_u64().unwrap_or(0) as u8,
                 after_only: v["after_only"].as_bool().unwrap_or(false),
+                vanish: v["vanish"].as_bool().unwrap_or(false),
+                slow_ms: v["slow_ms"].as_u64().unwrap_or(0) as u32,
             },
             spec_from_json(&v["schedule"]),
         )
     }
     pub fn hash(&self) -> u64 {
-        crate::util::hash_str(&format!("{:?}", (self.n, self.mask, self.kinds, &self.requested, self.input_style, self.threads, self.stale, self.dup_edges, self.subdirs, mode_name(&self.mode), (self.fail_at, self.fail_kind, self.after_only))))
+        crate::util::hash_str(&format!("{:?}", (self.n, self.mask, self.kinds, &self.requested, self.input_style, self.threads, self.stale, self.dup_edges, self.subdirs, mode_name(&self.mode), (self.fail_at, self.fail_kind, self.after_only, self.vanish))))
     }
     fn dir_of(&self, i: usize) -> &'static str {
         if self.subdirs && i % 2 == 1 {
@@ -127,7 +134,7 @@ pub struct GraphRun {
 fn build_files(case: &GraphCase, generation: u32, marker_log: Option<&str>, obs_log: Option<&str>) -> Files {
     let g = case.graph();
     let flat = graph_files(&g, generation, 0xabc0 + case.mask, if case.markers { marker_log } else { None }, if case.obs { obs_log } else { None }, case.dup_edges);
-    if !case.subdirs && case.fail_at.is_none() && !case.after_only {
+    if !case.subdirs && case.fail_at.is_none() && !case.after_only && !case.vanish && case.slow_ms == 0 {
         return flat;
     }
     // re-home odd files into d/ and rewrite references accordingly; inject the failing command
@@ -157,6 +164,9 @@ fn build_files(case: &GraphCase, generation: u32, marker_log: Option<&str>, obs_
             if case.after_only && l.starts_with("#TXTPP#run cat ") {
                 continue;
             }
+            if case.slow_ms > 0 && l.starts_with("//TXTPP#run echo ") {
+                l = l.replacen("//TXTPP#run echo ", &format!("//TXTPP#run sleep {}.{:03}; echo ", case.slow_ms / 1000, case.slow_ms % 1000), 1);
+            }
             out.push_str(&l);
             out.push('\n');
         }
@@ -171,6 +181,10 @@ fn build_files(case: &GraphCase, generation: u32, marker_log: Option<&str>, obs_
                 _ => "",
             };
             out.insert_str(idx, line);
+        }
+        if case.vanish && i == 0 {
+            let idx = out.rfind(&format!("{}:tail:", graph_name(i))).unwrap_or(out.len());
+            out.insert_str(idx, "<!--TXTPP#run rm -rf gone\n");
         }
         files.insert(format!("{}.txtpp", case.path_of(i)), out.into_bytes());
     }
@@ -230,7 +244,19 @@ pub fn exec(ctx: &mut Ctx, case: &GraphCase, spec: Spec, log_events: bool) -> Gr
     if case.subdirs {
         dirs.push("d".to_string());
     }
+    if case.vanish {
+        dirs.push("gone".to_string());
+    }
     materialize(&root, &files, &dirs);
+    if let (Some(f), 8) = (case.fail_at, case.fail_kind) {
+        // the model keeps the clean text; on disk a line in the middle of the source is undecodable
+        let p = root.join(format!("{}.txtpp", case.path_of(f)));
+        let mut b = std::fs::read(&p).unwrap_or_default();
+        let needle = format!("{}:tail:", graph_name(f)).into_bytes();
+        let idx = b.windows(needle.len()).rposition(|w| w == &needle[..]).unwrap_or(0); // start of the tail line
+        b.splice(idx..idx, [0xff, 0xfe, b' ', b'b', b'a', b'd', b'\n']);
+        let _ = std::fs::write(&p, b);
+    }
     // what a correct build leaves: model on the fresh sources
     let all_requested = case.input_style >= 4;
     let req_vertices: Vec<usize> = if all_requested { (0..case.n).collect() } else { case.requested.clone() };
